@@ -67,6 +67,7 @@ func (b *Backends) Clear() {
 		}
 	}
 	nb.itemsDel = b.items
+	nb.defaultBackendID = b.defaultBackendID
 	*b = *nb
 }
 
@@ -150,11 +151,26 @@ func (b *Backends) Commit() {
 	b.itemsAdd = map[string]*Backend{}
 	b.itemsDel = map[string]*Backend{}
 	b.changedShards = map[int]bool{}
+	b.defaultBackendID = b.currentDefaultBackendID()
+}
+
+func (b *Backends) currentDefaultBackendID() string {
+	if b.DefaultBackend == nil {
+		return ""
+	}
+	return b.DefaultBackend.ID
+}
+
+// DefaultBackendChanged reports if the default backend is another one since
+// the last commit. It can start or stop being an existing backend that did
+// not change itself, and the frontends depend on which one it is.
+func (b *Backends) DefaultBackendChanged() bool {
+	return b.defaultBackendID != b.currentDefaultBackendID()
 }
 
 // Changed ...
 func (b *Backends) Changed() bool {
-	return len(b.itemsAdd) > 0 || len(b.itemsDel) > 0
+	return len(b.itemsAdd) > 0 || len(b.itemsDel) > 0 || b.DefaultBackendChanged()
 }
 
 // BackendChanged ...
